@@ -76,6 +76,8 @@ where
     // This must remain true until the end so that the panic handler drops elements correctly.
     let mut first_moved = 0;
     let mut first_ttt = 0;
+    #[cfg(truc_verif)]
+    crate::verif::vec_convert("start", first_moved, first_ttt, slice.len());
 
     let maybe_panic =
         std::panic::catch_unwind(std::panic::AssertUnwindSafe(|| -> Result<(), E> {
@@ -88,6 +90,8 @@ where
                     }
                     // The element in the slice is now moved
                     first_ttt += 1;
+                    #[cfg(truc_verif)]
+                    crate::verif::vec_convert("take", first_moved, first_ttt, slice.len());
                     unsafe { ttt.assume_init() }
                 };
 
@@ -110,6 +114,8 @@ where
                         }
                         // The element is now converted
                         first_moved += 1;
+                        #[cfg(truc_verif)]
+                        crate::verif::vec_convert("store", first_moved, first_ttt, slice.len());
                     }
                     VecElementConversionResult::Abandonned => {
                         // The element has been abandonned by the converter
@@ -120,6 +126,8 @@ where
         }));
 
     let clean_on_error = || {
+        #[cfg(truc_verif)]
+        crate::verif::vec_convert("cleanup", first_moved, first_ttt, slice.len());
         // Bring Us back into auto-drop land
         for element in &slice[0..first_moved] {
             let mut uuu = MaybeUninit::<U>::uninit();
@@ -140,6 +148,8 @@ where
 
     match maybe_panic {
         Ok(Ok(())) => {
+            #[cfg(truc_verif)]
+            crate::verif::vec_convert("finish", first_moved, first_ttt, manually_drop.len());
             unsafe {
                 manually_drop.set_len(first_moved);
             }
